@@ -38,6 +38,12 @@ def run(props, nseeds, out=print):
             rb = _digests(b, prop, seeds)
             ok_idx = [i for i, r in enumerate(ra) if r[0] == "ok"]
             rc = _digests(b, prop, [seeds[i] for i in ok_idx], scenarios=[ra[i][2] for i in ok_idx])
+            # and once more in an interpreter started with ANOTHER PYTHONHASHSEED: set/dict iteration order
+            # must not reach the event log
+            rd = [
+                ("ok", r["result"]["digest"], None) if r.get("status") == "ok" else (r.get("status"), None, None)
+                for r in b.run([{"prop": prop, "scenario": ra[i][2], "hashseed": (seeds[i] + 1) % engine.HASHSEEDS, "tier": "quick"} for i in ok_idx])
+            ]
         finally:
             b.close()
         mism = 0
@@ -54,8 +60,13 @@ def run(props, nseeds, out=print):
                 mism += 1
                 if mism <= 6:
                     out("  %s seed %d: replay from scenario gives %s/%s, from seed %s" % (prop, seeds[i], z[0], z[1], ra[i][1]))
+        for i, z in zip(ok_idx, rd):
+            if z[0] != "ok" or z[1] != ra[i][1]:
+                mism += 1
+                if mism <= 6:
+                    out("  %s seed %d: under another PYTHONHASHSEED the digest is %s/%s, expected %s" % (prop, seeds[i], z[0], z[1], ra[i][1]))
         nonok = sum(1 for r in ra if r[0] != "ok")
-        out("%s: %d seeds x 3 executions (16 workers, 4 workers, replay from scenario): %d mismatches, %d non-ok" % (prop, nseeds, mism, nonok))
+        out("%s: %d seeds x 4 executions (16 workers, 4 workers, replay from scenario, replay under another PYTHONHASHSEED): %d mismatches, %d non-ok" % (prop, nseeds, mism, nonok))
         if nonok:
             out("   first non-ok: %r" % ([r for r in ra if r[0] != "ok"][0],))
         bad += mism + nonok
